@@ -19,8 +19,10 @@ import (
 	"google.golang.org/grpc/credentials/insecure"
 	"google.golang.org/grpc/metadata"
 	"google.golang.org/protobuf/encoding/protojson"
+	"google.golang.org/protobuf/proto"
 
 	configv1 "github.com/istio-ecosystem/authservice/config/gen/go/v1"
+	"github.com/istio-ecosystem/authservice/internal/server"
 )
 
 // Service is a running authservice process.
@@ -206,4 +208,23 @@ func (s *Service) CheckRaw(req *envoy.CheckRequest, md map[string]string) *Resp 
 	r.Err = err
 	ParseResp(r, resp)
 	return r
+}
+
+// ThroughInterceptors returns a function that sends a check through the interceptor chain of the service's gRPC
+// server (request-id propagation, then the logging middleware, then the filter) in the caller's goroutine, and then
+// serialises the answer as the gRPC server would. Nothing but the socket is left out, and a panic anywhere in the
+// chain unwinds into the caller, who can report it (behind a real gRPC server it would end the process).
+func ThroughInterceptors(f *server.ExtAuthZFilter) func(ctx context.Context, req *envoy.CheckRequest) (*envoy.CheckResponse, error) {
+	lm := server.NewLogMiddleware()
+	info := &grpc.UnaryServerInfo{FullMethod: "/envoy.service.auth.v3.Authorization/Check"}
+	return func(ctx context.Context, req *envoy.CheckRequest) (*envoy.CheckResponse, error) {
+		handler := func(ctx context.Context, r any) (any, error) { return f.Check(ctx, r.(*envoy.CheckRequest)) }
+		logged := func(ctx context.Context, r any) (any, error) { return lm.UnaryServerInterceptor(ctx, r, info, handler) }
+		out, err := server.PropagateRequestID(ctx, req, info, logged)
+		resp, _ := out.(*envoy.CheckResponse)
+		if resp != nil {
+			_, _ = proto.Marshal(resp)
+		}
+		return resp, err
+	}
 }
